@@ -185,7 +185,7 @@ func init() {
 			},
 			func(f string) (interface{}, error) {
 				var c sbCase
-				if err := readJSON(f, &c); err != nil {
+				if err := readCase(f, &c); err != nil {
 					return nil, err
 				}
 				return &c, nil
@@ -421,7 +421,7 @@ func init() {
 			},
 			func(f string) (interface{}, error) {
 				var c rlpCase
-				if err := readJSON(f, &c); err != nil {
+				if err := readCase(f, &c); err != nil {
 					return nil, err
 				}
 				return &c, nil
